@@ -177,7 +177,7 @@ def run (t : Tier) : Emit Unit := do
         emit "C06" { c with args := c.args ++ [("expect", jstr (jesc expAllL)), ("faultPids", jarr [jnat 0x100]), ("maxMissing", jnat 1)] }
   -- loss on an SI PID whose units span several packets (the remainder of a unit is then usually unparseable: NextData
   -- reports an error), while long units are in progress on two PES PIDs: those are unaffected
-  for i in [0:(if t.quick then 3 else 15)] do
+  for i in [0:(if t.quick then 6 else 24)] do
     let kind := [2, 3, 4].getD (i % 3) 2
     let pidSI := [0x11, 0x10, 0x12].getD (i % 3) 0x11
     let secsA ← liftGen (genList 1 (genSectionOfKind kind true))
@@ -199,7 +199,6 @@ def run (t : Tier) : Emit Unit := do
     let idxs := (ps.zipIdx.filter fun (p, _) => p.header.pid == pidSI).map (·.2)
     let nA := a.chunks.length
     for j in [0:idxs.length - 1] do
-      if t.quick && j % 3 != 0 && j != nA then continue
       let k := idxs.getD j 0
       let del := ps.take k ++ ps.drop (k + 1)
       let isFirstOfUnit := j = 0 || j = nA
